@@ -6,6 +6,7 @@
  * args: set=alpha|universe|reflogs  maxlen=<k>  levels=0,6  conts=64,131072  rps=0,1  hp=0|1 (header patterns)
  *       shard=i/n  keep=<dir> (keep files + manifest.jsonl)  poison=<byte|-1>  slice=<n> (universe: every n-th)
  *       order=rev (C14: configurations enumerated in reverse order, so every session follows different earlier sessions)
+ *       preopen=<k> (k failed open attempts on the same File object in front of every successful open)
  *       twice=1 (C14: write every session twice, interleaved with the previous one)
  */
 #include <Vector/BLF.h>
@@ -175,6 +176,7 @@ static void set_header_pattern(FileStatistics & fs, int hp, blfasm::Header & h) 
 }
 
 static std::string g_dir;
+static long g_preopen = 0;   /* failed open attempts in front of the successful one (missing file / uncreatable file, alternating) */
 static FILE * g_manifest;
 static bool g_keep;
 
@@ -209,6 +211,10 @@ static SessionResult session(const std::vector<const Elem *> & seq, const std::v
         f.setDefaultLogContainerSize((uint32_t)cont);
         if (hp <= 4) set_header_pattern(f.fileStatistics, hp, hdr);
         if (hp == 7) set_header_pattern(f.fileStatistics, 2, hdr);
+        for (long k = 0; k < g_preopen; k++) {
+            if (k % 2 == 0) f.open((g_dir + "/does-not-exist.blf").c_str());
+            else f.open((g_dir + "/no-such-dir/out.blf").c_str(), std::ios_base::out);
+        }
         f.open(path.c_str(), std::ios_base::out);
         if (!f.is_open()) { report("C13", "open-out", "open() for writing failed", label); vs_end(nullptr); sr.ok = false; return sr; }
         if (hp == 5) set_header_pattern(f.fileStatistics, 4, hdr);
@@ -246,6 +252,10 @@ static SessionResult session(const std::vector<const Elem *> & seq, const std::v
     vs_begin(nullptr, 0, &cfg);
     {
         File f;
+        for (long k = 0; k < g_preopen; k++) {
+            if (k % 2 == 0) f.open((g_dir + "/does-not-exist.blf").c_str());
+            else f.open((g_dir + "/no-such-dir/out.blf").c_str(), std::ios_base::out);
+        }
         f.open(path.c_str());
         if (!f.is_open()) { report("C13", "open-in", "open() of the written file failed", label); vs_end(nullptr); sr.ok = false; return sr; }
         size_t got = 0;
@@ -347,6 +357,7 @@ int main(int argc, char ** argv) {
     long maxlen = args.num("maxlen", 2);
     long slice = args.num("slice", 1);
     bool twice = args.num("twice", 0) != 0;
+    g_preopen = args.num("preopen", 0);
     if (args.str("order", "") == "rev") {
         /* C14: the same sessions after different earlier activity in the process */
         for (auto * l : {&levels, &conts, &rps, &hps}) std::reverse(l->begin(), l->end());
@@ -419,6 +430,7 @@ int main(int argc, char ** argv) {
                         if (!ok) continue;
                         if (label.empty()) label = "(empty)";
                         label = "[" + label + "] lv=" + std::to_string(level) + " cont=" + std::to_string(cont) + " rp=" + std::to_string(rp) + " hp=" + std::to_string(hp);
+                        if (g_preopen) label += " preopen=" + std::to_string(g_preopen);
                         std::string path = g_dir + "/f" + std::to_string(shard) + "_" + std::to_string(g_keep ? ordinal : 0) + ".blf";
                         SessionResult r1 = session(se, sb, level, cont, rp, (int)hp, path, label, readback);
                         if (twice) {
